@@ -473,6 +473,38 @@ for _pid, _txt in _ALSO2.items():
 for _pid, _txt in _ALSO_TECH2.items():
     TECHNIQUE[_pid] = TECHNIQUE[_pid] + _txt
 
+_ALSO3 = {
+    "C01": " conj(mangle_inner, output_inds) renames every label that is not an output (complement over all labels); in `if V is None: ... else: ...` both arms fold the stored exponent into V.",
+    "C02": " A method that re-keys tensor_map re-registers the owners.",
+    "C03": " `A.modify(data=B.data)` is reached only with B aligned like A on every path (must-analysis).",
+    "C04": " The gauge applied by gauge_simple_insert is the gauge it records; diagonal_reduce collapses the merged index on every holder; the flag setter assigns on every path; a decomposition factor is flagged only for the absorb modes (and, for a run-time method, shapes) that make it an isometry.",
+    "C05": " A driver delegating to another passes on every truncation option both accept; on every path of the hermitian-eigendecomposition drivers on which a square-root absorb mode is possible the spectrum is non-negative; inline absorb tables put the singular values on the factor their code names.",
+    "C06": " gate_nonlocal factorises the gate with the state's site tags and the caller's cutoff.",
+    "C07": " Circuit constructors bind their options to the base constructor's parameters of the same name.",
+    "C08": " Every routine that stores the record itself does so (or hands the record on) on every path that follows a change of the network; the absorb chain of swap_sites_with_compress is total.",
+    "C09": " MPS and MPO from_fill_fn decide bonds by the same tests; generators deliver L together with sites; data combined from two operands does not inherit one operand's isometry flag.",
+    "C10": " A rewrite of the state between two sweeps re-decides the canonize flag; the two-site update flags a factor isometric only for the matching sweep direction.",
+    "C12": " No predicate over a pair of tensors repeats a conjunct; an option dict that is completed is handed on.",
+    "C14": " Message writers drop the matching entries of every lazily filled memo; normalize_message_pair divides out the phase of the overlap; rank-0 tensors left out of the batches are multiplied into the batched value; every generalized-loop expansion chains in the single tensor regions.",
+    "C15": " par_reduce combines only operand-adjacent partial results (abstract interpretation over operand intervals).",
+    "C16": " par_reduce combines only operand-adjacent partial results; a threaded kernel's index state is not carried across its blocks.",
+    "C17": " A LinearOperator's _rmatvec is not identical to its _matvec.",
+    "C18": " Every site that advances the state through the update slot leaves the clock at the requested time.",
+}
+_ALSO_TECH3 = {
+    "C03": "; must-analysis over branches",
+    "C05": "; path enumeration with a sign abstraction, delegation sibling rule",
+    "C08": "; must-analysis of record stores",
+    "C10": "; effect-engine query inside the sweep loop",
+    "C14": "; memo / writer pairing, sibling region rule",
+    "C15": "; abstract interpretation over an operand-interval domain with bounded unrolling",
+    "C16": "; abstract interpretation over an operand-interval domain; loop-carried state rule",
+}
+for _pid, _txt in _ALSO3.items():
+    REGISTRY[_pid]["explanation"] = REGISTRY[_pid]["explanation"] + _txt
+for _pid, _txt in _ALSO_TECH3.items():
+    TECHNIQUE[_pid] = TECHNIQUE[_pid] + _txt
+
 from .selftest import make_selftest  # noqa: E402
 
 for _pid, _spec in REGISTRY.items():
